@@ -55,7 +55,7 @@ Input space
       point, overall time scale 10^U(-3,3).
   (C) closed-form cases: twin blocks on shapes x y x rates (quick: 60 seeded of 1024; thorough: all 1024),
       all 100 ordered pairs of 8 fixed ages (and t_j = 0) for mutation_edge / mutation_block.
-  quick:    60 lattice points per family (5 families) + up to 8 captured tuples per wrapper       (~45 s)
+  quick:    45 lattice points per family (5 families) + up to 6 captured tuples per wrapper       (~35 s idle)
   thorough: 900 lattice points per family + up to 60 captured tuples per wrapper                   (<= 15 min)
   Not exhaustive (seeded sample of a lattice; the lattice itself is a sample of a continuum).
   A wall-clock budget (params.budget_s) is a safety net only; any case it drops is reported in the notes.
@@ -845,8 +845,8 @@ def run(req, rep):
     rng = np.random.default_rng(seed)
     from tsdate import approx
 
-    n_lat = int(params.get("n_lattice", 900 if thorough else 60))
-    n_cap = int(params.get("n_captured", 60 if thorough else 8))
+    n_lat = int(params.get("n_lattice", 900 if thorough else 45))
+    n_cap = int(params.get("n_captured", 60 if thorough else 6))
     rep.space = ("tsdate.approx moment kernels and projection wrappers on (A) argument tuples captured from real EP runs "
                  "on 3 simulated inputs, (B) a seeded sample of the product lattice shape{0.99..1000} x y{0..1000} x "
                  "mu/b{1e-4..2} x b_j/b_i{1e-3..460} x age*rate{0.01..60} x flat cavities x time scale 10^U(-3,3), "
@@ -866,7 +866,7 @@ def run(req, rep):
     except Exception as e:
         rep.notes.append(f"capture failed: {type(e).__name__}: {e}")
         cap = {}
-    budget = float(params.get("budget_s", 800 if thorough else 75))
+    budget = float(params.get("budget_s", 800 if thorough else 70))
     dropped = 0
     # interleave families so that a time budget cut is fair
     work = []
@@ -886,7 +886,14 @@ def run(req, rep):
             invalid += 1
             continue
         FAMS[fam](cx, approx, tuple(float(v) for v in p), tag)
-    for clause, ok, kw in cx.deferred:
+    # a few failing examples of every known-* clause first (the failure list of the report is capped), then the rest
+    lead, seen = [], {}
+    for item in cx.deferred:
+        if not item[1] and seen.get(item[0], 0) < 5:
+            seen[item[0]] = seen.get(item[0], 0) + 1
+            lead.append(item)
+    lead_ids = {id(item) for item in lead}
+    for clause, ok, kw in lead + [item for item in cx.deferred if id(item) not in lead_ids]:
         rep.case(clause, ok, **kw)
     rep.notes.append(f"{invalid} captured tuples outside the precondition (improper cavity) not evaluated; "
                      f"{dropped} cases dropped by the time budget; {cx.oracle_fail} cases where the oracle could not "
